@@ -115,6 +115,9 @@ benign("c13-benign-flip-compare", "C13", "jax2onnx/converter/conversion_api.py",
 benign("c13-benign-rename-applied", "C13", "jax2onnx/plugins/_patching.py", "applied", "done_list", count=99)
 
 # ----------------------------------------------------------------------------- C19
+RUF = "jax2onnx/plugins/jax/numpy/_reduction_utils.py"
+multi("c19-batch-rule-rebind-whitelist", "C19", "mutant", [(RUF, "        (operand,), (bdim,) = batched_args, batch_dims\n", "        (operand,), (bdim,) = batched_args, batch_dims\n        passthrough = {name: params[name] for name in (\"dtype\", \"keepdims\") if name in params}\n"), (RUF, "                axes_is_tuple=axes_is_tuple,\n                **params,", "                axes_is_tuple=axes_is_tuple,\n                **passthrough,")], expect="R-C19e")
+multi("c19-benign-batch-rule-rebind-copy", "C19", "benign", [(RUF, "        (operand,), (bdim,) = batched_args, batch_dims\n", "        (operand,), (bdim,) = batched_args, batch_dims\n        forwarded = dict(params)\n"), (RUF, "                axes_is_tuple=axes_is_tuple,\n                **params,", "                axes_is_tuple=axes_is_tuple,\n                **forwarded,")])
 JT = "jax2onnx/plugins/jax/numpy/transpose.py"
 mutant("c19-param-renamed", "C19", JT, "def _patched(a: ArrayLike, axes: AxesArg = None) -> jax.Array:\n                arr = jnp.asarray(a)\n                axes_tuple = _normalize_axes(axes, arr.ndim)",
        "def _patched(a: ArrayLike, perm: AxesArg = None) -> jax.Array:\n                arr = jnp.asarray(a)\n                axes_tuple = _normalize_axes(perm, arr.ndim)", expect="jax.numpy.transpose::axes::keyword")
@@ -185,6 +188,8 @@ benign("c14-benign-sorted-twice", "C14", PS, "            for pname in sorted(ca
 benign("c14-benign-set-membership-loop", "C14", OPT, "            if t2_node not in output_transposes:\n                continue\n", "            if t2_node not in output_transposes:\n                continue\n            n_inverse = 0\n            for _t in output_transposes:\n                n_inverse += 1\n")
 
 # ----------------------------------------------------------------------------- C01
+mutant("c01-searchsorted-promotion-overridden", "C01", "jax2onnx/plugins/jax/numpy/searchsorted.py", "        compare_dtype: np.dtype[Any] = np.promote_types(a_dtype, v_dtype)\n", "        compare_dtype: np.dtype[Any] = np.promote_types(a_dtype, v_dtype)\n        if compare_dtype == np.float64 and not ctx.builder.enable_double_precision:\n            compare_dtype = a_dtype\n", expect="R-C01h")
+multi("c01-lpnorm-matcher-without-shape-check", "C01", "mutant", [("jax2onnx/plugins/jax/lax/div.py", "    lhs_rank = len(_shape_tuple(lhs_val))\n", "    lhs_rank = 2\n"), ("jax2onnx/plugins/jax/lax/div.py", "    src_dims = _shape_tuple(broadcast_src)\n    if lhs_rank == 0 or len(src_dims) != lhs_rank:\n        return None\n", "    src_dims = (1, 1)\n")], expect="R-C01f")
 mutant("c01-rounding-method-read-but-ignored", "C01", "jax2onnx/plugins/jax/lax/round.py", "        if int(method) == int(jax.lax.RoundingMethod.TO_NEAREST_EVEN):", "        if False:", expect="R-C01e")
 mutant("c01-integer-pow-exponent-dead-local", "C01", "jax2onnx/plugins/jax/lax/integer_pow.py", "        exponent = int(params.get(\"y\", 2))", "        _declared_exponent = int(params.get(\"y\", 2))\n        exponent = 2", expect="R-C01e")
 mutant("c01-lt-operands-swapped", "C01", "jax2onnx/plugins/jax/lax/lt.py", "ctx.builder.Less(lhs_val, rhs_val,", "ctx.builder.Less(rhs_val, lhs_val,", expect="R-C01d")
@@ -328,6 +333,9 @@ mutant("c16-dim-origin-missing-tolerated", "C16", LDF, "        if origin is Non
 benign("c16-benign-narrow-handler", "C16", "jax2onnx/plugins/jax/lax/tanh.py", "        result = ctx.builder.Tanh(x_val, _outputs=[desired_name])", "        try:\n            result = ctx.builder.Tanh(x_val, _outputs=[desired_name])\n        except AttributeError:\n            raise")
 
 # ----------------------------------------------------------------------------- C03
+CFU = "jax2onnx/plugins/jax/lax/_control_flow_utils.py"
+mutant("c03-subgraph-shares-sym-origin-table", "C03", CFU, "    child_ctx_any._sym_origin = dict(getattr(parent_ctx, \"_sym_origin\", {}))", "    child_ctx_any._sym_origin = getattr(parent_ctx, \"_sym_origin\", {})", expect="R-C03f")
+benign("c03-benign-subgraph-sym-origin-copy-method", "C03", CFU, "    child_ctx_any._sym_origin = dict(getattr(parent_ctx, \"_sym_origin\", {}))", "    child_ctx_any._sym_origin = getattr(parent_ctx, \"_sym_origin\", {}).copy()")
 WLF = "jax2onnx/plugins/jax/lax/while_loop.py"
 mutant("c03-while-const-slice-ignores-predicate-output", "C03", WLF, "        const_outputs = loop_outputs[\n            output_offset : output_offset + len(body_const_vals)\n        ]", "        const_outputs = loop_outputs[: len(body_const_vals)]", expect="R-C03e")
 mutant("c03-while-value-outputs-start-early", "C03", WLF, "        value_outputs = loop_outputs[cond_const_offset + len(cond_const_vals) :]", "        value_outputs = loop_outputs[cond_const_offset:]", expect="R-C03e")
